@@ -109,3 +109,7 @@ class Bare_delete_one:
                 and forall("bytes", lambda o: implies(o in old(repo_objects(self.repo)), o in repo_objects(self.repo)))
                 and repo_ncommits(self.repo) == old(repo_ncommits(self.repo)) + 1
                 and commit_parent(repo_head(self.repo)) == old(repo_head(self.repo)))
+
+view("xandikos.store.git.BareGitStore", "ghost_locked", "false_view")
+
+view("xandikos.store.git.BareGitStore", "ghost_trees", "trees_view")
